@@ -259,6 +259,9 @@ func GenErrSpec(t *rapid.T) *ErrSpec {
 	if rapid.IntRange(0, 2).Draw(t, "etb?") == 0 {
 		e.TB = "Traceback (most recent call last):\n  upstream frame " + GenString(t, "etb")
 	}
+	if rapid.IntRange(0, 2).Draw(t, "erid?") == 0 {
+		e.RID = "upstream-" + GenString(t, "erid")
+	}
 	return e
 }
 
